@@ -199,8 +199,12 @@ func (cf *chainFixture) build(chain []string, final string, f sharedForm, mod st
 	fmt.Fprintf(&b, "$t = new %s(); $w = 7777;\n", cf.V)
 	fmt.Fprintf(&b, "echo \"B|\", $t->obs(), \"|\", %s::sobs(), \"\\n\";\n", cf.V)
 	p0, call0 := enter(1)
-	b.WriteString(p0 + "\n$st = \"denied\"; $v = \"-\";\ntry { $v = " + call0 + "; $st = \"ok\"; } catch (\\Throwable $e) { $st = \"denied\"; }\n")
-	b.WriteString("echo \"R|\", $st, \"|\"; echo $v; echo \"\\n\";\n")
+	block := "$st = \"denied\"; $v = \"-\";\ntry { $v = " + call0 + "; $st = \"ok\"; } catch (\\Throwable $e) { $st = \"denied\"; }\n" +
+		"echo \"R|\", $st, \"|\"; echo $v; echo \"\\n\";\n"
+	if mod != "public" {
+		block = repeatBlock(block)
+	}
+	b.WriteString(p0 + "\n" + block)
 	fmt.Fprintf(&b, "echo \"A|\", $t->obs(), \"|\", %s::sobs(), \"\\n\";\necho \"END\\n\";\n", cf.V)
 
 	allowed := mod == "public"
@@ -219,8 +223,8 @@ func (cf *chainFixture) build(chain []string, final string, f sharedForm, mod st
 			}
 			return "", ""
 		}
-		if o.R[0] == "ok" {
-			return "leak", fmt.Sprintf("a %s defined outside any class, reached through the call chain %s, could %s the %s %s member of %s (value %s)", final, chainLbl, f.op, mod, f.kind, "V", o.R[1])
+		if cls, why := o.retryVerdict(attempts); cls != "" {
+			return cls, fmt.Sprintf("a %s defined outside any class, reached through the call chain %s, could %s the %s %s member of V: %s", final, chainLbl, f.op, mod, f.kind, why)
 		}
 		if len(o.Called) > 0 || o.Lines["B"] != o.Lines["A"] {
 			return "effect", fmt.Sprintf("denied through chain %s but had an effect: called=%v before=%s after=%s", chainLbl, o.Called, o.Lines["B"], o.Lines["A"])
